@@ -18,12 +18,12 @@ CLAIMS = {
                 tech='Verus on extracted into_buffer tail and CssBuf + lemma layer; Kani harnesses on CssBuf and get_indent',
                 ref='DESIGN.md §5 C07, §11'),
     'C11': dict(cat='proof',
-                text='Unit::scale_to is checked against the CSS Values ratio table for every ordered pair of the 28 named units (complete, one named assertion per pair), and lifted through UnitSet::scale_to_unit and Numeric::partial_cmp/as_unit (representative unit pairs, probe magnitudes: bounded), and through the numeric arms of + and - of Operator::eval (extracted ranges; 11 representative unit pairs, all left magnitudes up to 1e9: bounded); UnitSet Mul/Div exponent algebra bounded to 2 entries.',
+                text='Unit::scale_to is checked against the CSS Values ratio table for every ordered pair of the 28 named units (complete, one named assertion per pair), and lifted through UnitSet::scale_to_unit and Numeric::partial_cmp/as_unit (representative unit pairs, probe magnitudes: bounded), and through the numeric arms of + and - of Operator::eval (extracted ranges; 11 representative unit pairs, all left magnitudes up to 1e9: bounded); UnitSet Mul/Div exponent algebra bounded to 2 entries; the single-unit shortcut of UnitSet::scale_to is taken exactly when the target is one unit with exponent 1 (extracted head of the function).',
                 note="Known findings: em/ex/ch, vmin/vmax, %/fr are convertible in rsass (10 named pairs). simplify()'s scale factor and the compound-unit branch of UnitSet::scale_to (powi is over-approximated by CBMC), math.div and Operator::eval as a whole (thorough-tier attempts only) are not covered.",
                 tech='Kani proof harnesses, exhaustive over unit pairs, oracle = CSS ratio table; K-snippets of Operator::eval arms',
                 ref='DESIGN.md §5 C11, §11'),
     'C12': dict(cat='proof',
-                text='Symmetry of ==, antisymmetry of partial_cmp and reflexivity except NaN are discharged for ALL f64 payloads on Number, Numeric (same unit / unitless, incl. trichotomy), cmp_chan, Rgba; reflexivity and NaN-totality for Hsla-origin Color; css::Value::eq symmetry on one representative per constructor (bounded).',
+                text='Symmetry of ==, antisymmetry of partial_cmp and reflexivity except NaN are discharged for ALL f64 payloads on Number, Numeric (same unit / unitless, incl. trichotomy), cmp_chan, Rgba; reflexivity and NaN-totality for Hsla-origin Color; == of two rgb colors agrees with cmp (tolerance of conversion rounding included; all f64); hwb == hsl symmetric on two concrete probe pairs; css::Value::eq symmetry on one representative per constructor (bounded).',
                 note='Strings with different quote kinds (CssString::unquote) and nested lists/maps are out of reach; cross-unit symmetry only on probe magnitudes. Number trichotomy, Hsla cmp antisymmetry, color==color through css::Value and the comparison arms of Operator::eval exceed the quick budget: thorough-tier attempts, never counted as proved.',
                 tech='Kani proof harnesses over full-domain symbolic f64',
                 ref='DESIGN.md §5 C12'),
@@ -73,12 +73,12 @@ CLAIMS = {
                 tech='Kani proof harnesses; K-snippets of the list function closures',
                 ref='DESIGN.md §5 C28, §11'),
     'C29': dict(cat='proof',
-                text='The rounding primitives behind math.ceil / floor / round / abs (Number::ceil, floor, round, abs, trunc) against their mathematical specification for ALL finite doubles (complete); the closures of math.ceil / floor / percentage and sass_round keep the unit and apply the primitive (ranges extracted each run, all finite doubles); find_extreme, the fold behind math.min / max, returns one of its arguments chosen after unit conversion and rejects incompatible units (concrete argument lists: bounded).',
-                note='clamp, pow, sqrt, log, exp, trigonometric functions (over-approximated by CBMC), math.div and the CSS-fallback forms (math/css.rs) are not covered.',
+                text='The rounding primitives behind math.ceil / floor / round / abs (Number::ceil, floor, round, abs, trunc) against their mathematical specification for ALL finite doubles (complete); the closures of math.ceil / floor / percentage and sass_round keep the unit and apply the primitive (ranges extracted each run, all finite doubles); find_extreme, the fold behind math.min / max, returns one of its arguments chosen after unit conversion (also when a unitless argument ties with one that has a unit) and rejects incompatible units (concrete argument lists: bounded).',
+                note='clamp, pow, sqrt, log, exp, trigonometric functions (over-approximated by CBMC), math.div and the CSS-fallback forms (math/css.rs) are not covered; that pow / sqrt / log / exp reject every unit (also % and fr) exists as harnesses that exceed 15 minutes (error path through core::fmt): thorough-tier attempts, never counted.',
                 tech='Kani proof harnesses over all finite f64 + K-snippets of the math function closures',
                 ref='DESIGN.md §11'),
     'C31': dict(cat='proof',
-                text='Channel-range postconditions of Rgba::new/from_rgb/from_rgba/set_alpha, cap, Hsla::new, Hwba::new, Color::set_alpha and of the rgb<->hsl<->hwb conversions, max_min_largest, same-channels => == (all f64, complete). deg_mod: the contract its call sites are checked against is proved for the real body (text extracted each run) for all doubles, modulo the assumed IEEE contract of `f64 % 360.0`.',
+                text='Channel-range postconditions of Rgba::new/from_rgb/from_rgba/set_alpha, cap, Hsla::new, Hwba::new, Color::set_alpha and of the rgb<->hsl<->hwb conversions, max_min_largest, same-channels => == (all f64, complete); hsl -> hwb on two concrete probe colors (the symbolic version is a thorough-tier attempt). deg_mod: the contract its call sites are checked against is proved for the real body (text extracted each run) for all doubles, modulo the assumed IEEE contract of `f64 % 360.0`.',
                 note='Known finding: hsl() passes an out-of-range lightness through (lightness(hsl(0, 50%, 120%)) = 120%); the repair breaks 11 baseline spec tests. f64 % is not modelled by CBMC: its IEEE contract is an unchecked assumption (listed in evidence). The exact rgb->hsl->rgb round trip is attempted in the thorough tier only and reported as not proved on timeout. NaN inputs are excluded from range obligations. The Sass-level constructors (rgb(), hsl(), hwb() argument parsing) are not covered.',
                 tech='Kani function contracts + proof harnesses over all f64; K-snippet of deg_mod',
                 ref='DESIGN.md §5 C31, §11'),
